@@ -7,7 +7,7 @@ from .l1 import Case, same_line
 from .trace import Op, Dump, resp_kind, added_id, added_urgency, found_version
 
 PARENT_CLASSES = ["nil", "latest:{c}", "anc:{c}:1", "anc:{c}:2", "anc:{c}:4", "base:{c}", "fresh",
-                  "latest:{o}", "ver:{o}:0", "client:{c}"]
+                  "latest:{o}", "ver:{o}:0", "client:{c}", "$odd0", "$odd2"]
 
 
 def fixture_info():
@@ -234,6 +234,11 @@ def cas_check(i, trace, fails, http=False):
     if not (b.ok and a.ok):
         fails.append(f"op {i}: dump failed around add_version"); return True
     kind = resp_kind(ri)
+    for nm, d in (("before", b), ("after", a)):
+        # "the client's current latest version" is a version: nil while it has none, else one that is stored
+        if not d.absent and d.latest != 0 and d.latest in d.by_id and d.by_id.get(d.latest) is None:
+            fails.append(f"op {i}: {nm} the request the client's latest pointer names {d.latest}, which is not a stored version of this client "
+                         f"(the client has no such version: requests are then decided against a version that does not exist)")
     if b.absent:
         # the library reports NoSuchClient; the HTTP handler creates the client and accepts
         want = "added" if http else "noclient"
@@ -384,6 +389,15 @@ class C02(L1Prop):
                     ops += ["dumpall", f"av 1 {rng.choice(['nil', 'fresh', 'anc:1:1'])} b:6,{j}", "dumpall"]
                 ops += ["dumpall", f"av 1 latest:1 b:7,{j}", "dumpall"]
             out.append(Case(f"c02-fault-{k}", ops, {"only": "sqlite", "faults": True}))
+        # the first upload of a NEW client fails in storage after the handler has created the client: the
+        # client exists and has no versions, so whatever parent the next upload names is acceptable
+        for k in range(sizes(tier, 10, 60)):
+            par = ["fresh", "nil", "$odd0", "latest:1"][k % 4]
+            idx = 5 + k % 5
+            ops = ["http POST av hyph=nil hyph=1 history b:1", "dumpall", f"fault {idx}:before", f"http POST av hyph={par} hyph=9 history b:1,{k}", "dumpall",
+                   f"http POST av hyph={['nil', 'fresh', '$odd1'][k % 3]} hyph=9 history b:2,{k}", "dumpall",
+                   "http POST av hyph=latest:9 hyph=9 history b:3", "dumpall", "http POST av hyph=nil hyph=9 history b:4", "dumpall"]
+            out.append(Case(f"c02-newfault-{k}", ops, {"only": "sqlite", "faults": True, "http": True}, mode="http"))
         # several server instances on one directory, used in turn
         for k in range(sizes(tier, 12, 100)):
             ops = ["ensure 1"]
@@ -574,6 +588,14 @@ class C08(L1Prop):
                     spec = rng.choice(["latest:1", "anc:1:1", "anc:1:2", "nil"])
                     ops += [f"inst {rng.randrange(3)}", f"gcv 1 {spec}", f"av 1 {spec} b:77,{step}"]
             out.append(Case(f"c08-inst-{k}", ops, {"only": "sqlite"}))
+        # ids of other shapes (version 7, version 1, all ones, arbitrary bits) as the parent of a client's
+        # first version, as the parent asked about on an empty / unknown / established client
+        for k in range(sizes(tier, 10, 50)):
+            kind = k % 5
+            ops = ["ensure 1"] if k % 2 else []
+            ops += [f"gcv 1 $odd{kind}a", f"av 1 $odd{kind}a b:1", f"gcv 1 $odd{kind}a", f"av 1 latest:1 b:2", f"gcv 1 $odd{kind}a", f"gcv 1 base:1",
+                    f"gcv 1 $odd{kind}b", f"av 1 $odd{kind}b b:3", f"gcv 2 $odd{kind}c", f"gcv 1 nil", f"av 1 nil b:4"]
+            out.append(Case(f"c08-odd-{k}", ops))
         def tail(name, c, nacc, snap, o):
             ops = []
             for j, spec in enumerate([f"latest:{c}", f"anc:{c}:1", "nil", f"base:{c}", "fresh", f"latest:{o}", f"anc:{c}:3"]):
@@ -865,6 +887,9 @@ class C09(L1Prop):
         for k in range(n):
             nc = rng.choice([2, 3, 4])
             ops, g = rand_prefix(rng, rng.randint(10, length), nc, True, False, True)
+            if k % 3 == 1:
+                # small snapshot targets: a counter or a clock shared between clients would change an urgency
+                ops = [f"cfg {rng.choice([14, 1, 2])} {rng.choice([1, 2, 3])}"] + ops
             out.append(Case(f"c09-{k}", ops, {"nclients": nc}))
         out += foreign_chain_cases("c09", rng, sizes(tier, 10, 100), [])
         # uploads of different clients interleaved chunk by chunk on one worker: nobody's bytes end up
@@ -953,7 +978,7 @@ class C09(L1Prop):
                 elif op.kind in ("backdate", "setcounter"):
                     ops.append(f"{op.kind} 1 {op.arg}")
             if ops:
-                out.append((Case(f"{case.name}-solo{c}", ops), c))
+                out.append((Case(f"{case.name}-solo{c}", [o for o in case.ops if o.startswith("cfg ")] + ops), c))
         return out
     def compare_derived(self, case, trace, c, solo_trace, backend):
         kinds = ("av", "gcv", "as", "gs", "ensure", "backdate", "setcounter")
@@ -1071,6 +1096,13 @@ class C10(L1Prop):
                     else:
                         ops.append(line)
             out.append(Case(f"c10-h-{j}", ops))
+        # the window is the five most recent versions WHATEVER the configured snapshot targets are
+        for j, (d, v) in enumerate([(14, 0), (14, 1), (14, 2), (14, 3), (14, 4), (14, 5), (14, 2 ** 31), (14, 3000000000), (14, U32MAX), (0, 100), (1, 100), (I64MAX, 100)]):
+            for n in (6, 3):
+                ops = [f"cfg {d} {v}", "ensure 1"] + [f"av 1 {'nil' if i == 0 else 'latest:1'} b:{i}" for i in range(n)]
+                for back in range(n, -1, -1):        # oldest first: each accepted upload is newer than the one before
+                    ops += ["dump 1", f"as 1 anc:1:{back} b:8,{back}", "dump 1", "gs 1"]
+                out.append(Case(f"c10-cfg-{j}-{n}", ops, {"cfg": [d, v]}))
         def tail(name, c, nacc, snap, o):
             ops = []
             for j, spec in enumerate([f"anc:{c}:1", f"latest:{c}", f"anc:{c}:2", f"anc:{c}:6", "nil", f"latest:{o}"]):
